@@ -186,8 +186,19 @@ def c10(prop, tier, verdict):
                                    'dispatch: subsets of a fixed handler inventory (3 controller structs, 2 functions, one CALL and one PUSH handler mapping to the same name) x 3 group prefixes x both mappers x unknown handlers on/off; every returned name, 8 near misses of it and unregistered names requested as CALL and as PUSH',
                                    'name conflicts are observed as the exit status of a child process']
 
+def c13(prop, tier, verdict):
+    def cl(line, s):
+        ops = '-'.join(x['op'] for x in s.get('steps', []))
+        return 'redial:%s%s/budget=%s' % (line.get('ev'), ':expect=' + str(line.get('expect')) if line.get('expect') else '', (s.get('steps') or [{}])[0].get('budget'))
+    cov, _ = eng_generic.run(prop, tier, verdict, 'Redial', 'redial', 'PRedial', cl, consts={'MaxOps': '8' if tier == 'thorough' else '7', 'Budgets': '{0, 2, 99}'},
+                             mc_cfg='Redial_mc.cfg', extra_cfg='VIEW view', min_count=500, nontrivial=lambda s: any(x['op'] in ('cut', 'down') for x in s.get('steps', [])))
+    return 'model_checking', cov, ['real loopback TCP through a forwarder that can refuse connections and cut existing ones; redial interval 3 ms; budgets 0, 2 and unlimited',
+                                   'fault sequences = every transition of spec/Redial.tla (histories of at most 7 / 8 operations: call, in-flight call, cut, server down/up, SetID, quiescence wait), expectations only where the statement fixes the outcome (calls racing with a redial and calls on an ended session with the server back are left open)',
+                                   'which goroutine (reader or writer) detects a loss is left to the run: a loss during an idle period is detected by the reader, a call issued right after a fault may detect it in its write']
+
 CHECKS = {
     'C01': c01,
+    'C13': c13,
     'C10': c10,
     'C06': c06,
     'C20': c20,
